@@ -75,7 +75,7 @@ Print Assumptions C06_ghosts_do_not_extend_life.
 (* non-vacuity: an accumulator over a sink, listened to, then the sink's handle dropped and a collection run: the
    sink (object 0) is still held up by the accumulator's snapshot node and is not freed *)
 Example C06_program_nonvacuous :
-  match hrun hinit [HDef 0 PSink []; HDef 1 PAccum [0]; HDef 2 PValue [1]; HListen 0 2 true; HDrop 0; HCollect] with
+  match hrun hinit [HDef 0 PSink [] []; HDef 1 PAccum [0] []; HDef 2 PValue [1] []; HListen 0 2 true; HDrop 0; HCollect] with
   | Ok st => map (fun o => freed (get (g (hs st)) o)) (seq 0 (nobjs (g (hs st))))
              = [false; false; true; false; false; false; false; false; false; false]
              /\ length (held st) = 5
